@@ -106,6 +106,47 @@ def wfsa_to_bytes(ctx):
             ctx.eq_terms(f"to_bytes: truncated encoding {bytes(t)!r} has weight zero", got, num.zero, hyps=[ctx.gt0(p) for p in p2], sig=f"wfsa.to_bytes:{P['shape']}:truncated")
 
 
+@case("C17", "bytes_to_cfg", domain="SW")
+def bytes_to_cfg(ctx):
+    "the chain the Lark front-end uses: to_bytes() then to_cfg(recursion): byte strings keep the symbol strings' weights"
+    P = ctx.P
+    num = ctx.num
+    sk = automaton(P["shape"])
+    ws = automaton_weights(ctx, sk, always=P.get("always", ()))
+    om = oracle_machine(ctx, sk, ws)
+    strings = [tuple(x) for x in P["strings"]]
+    for rec in ("right", "left"):
+        m = make_wfsa(ctx, sk, ws)
+        ok, g = ctx.call(f"to_bytes().to_cfg({rec})", lambda: m.to_bytes().to_cfg(recursion=rec), sig=f"bytes_to_cfg:{rec}:exception")
+        if not ok:
+            continue
+        rules = cfg_rules(ctx, g)
+        seen = set()
+        for x in strings:
+            b = _enc(x)
+            p1, p2 = [], []
+            ref = O.wfsa_weight(*om, x, num, p1)
+            okr, got = ctx.ref("oracle grammar", O.string_weight, rules, set(g.V), g.S, b, num, p2)
+            if okr:
+                ctx.eq_terms(f"to_bytes().to_cfg({rec}): weight of utf8({''.join(x)!r})", got, ref, hyps=[ctx.gt0(p) for p in p1 + p2], sig=f"bytes_to_cfg:{rec}:{P['shape']}")
+            seen.add(b)
+        for x in strings:
+            b = _enc(x)
+            for t in [b[:k] for k in range(1, len(b))] + [tuple(c for c in b if c != 0)]:
+                if t in seen or not t:
+                    continue
+                seen.add(t)
+                try:
+                    dec = tuple(bytes(t).decode("utf-8"))
+                except UnicodeDecodeError:
+                    dec = None
+                p1, p2 = [], []
+                ref = O.wfsa_weight(*om, dec, num, p1) if dec is not None else num.zero
+                okr, got = ctx.ref("oracle grammar", O.string_weight, rules, set(g.V), g.S, t, num, p2)
+                if okr:
+                    ctx.eq_terms(f"to_bytes().to_cfg({rec}): weight of bytes {list(t)}", got, ref, hyps=[ctx.gt0(p) for p in p1 + p2], sig=f"bytes_to_cfg:{rec}:{P['shape']}:other")
+
+
 def _bool_eps_close(states, eps_arcs):
     cl = {q: {q} for q in states}
     ch = True
@@ -271,9 +312,15 @@ def jobs(tier, seed):
         strings = [list(x) for x in all_strings(_alphabet(sk), 2)]
         alw = list(range(len(sk.arcs), sk.K))
         out += split_job(dict(case="wfsa_to_bytes", params=dict(shape=sh, strings=strings, always=alw)), bits)
+    for sh, bits in ([("A-NUL", [0])] if quick else [("A-NUL", [0]), ("A-MB", [0, 1, 2, 3])]):
+        sk = automaton(sh)
+        strings = [list(x) for x in all_strings(_alphabet(sk), 3 if sh == "A-NUL" else 2)]
+        alw = list(range(len(sk.arcs), sk.K))
+        out += split_job(dict(case="bytes_to_cfg", params=dict(shape=sh, strings=strings, always=alw)), bits)
     Lb = 6 if quick else 8
     out.append(dict(case="wfsa_to_bytes_support", params=dict(shapes=["A-MB"], L=Lb), timeout=900))
     out.append(dict(case="wfsa_to_bytes_support", params=dict(shapes=["A-MB4"], L=Lb), timeout=900))
+    out.append(dict(case="wfsa_to_bytes_support", params=dict(shapes=["A-NUL"], L=Lb), timeout=900))
     # two converted automata in one machine, entered through the first one only (a grammar whose start symbol reaches terminal A)
     out.append(dict(case="wfsa_to_bytes_support", params=dict(shapes=["A-MB2", "A-MB3"], L=Lb, start_at_first=True), timeout=900))
     out.append(dict(case="wfsa_to_bytes_support", params=dict(shapes=["A-MB2", "A-MB3"], L=Lb), timeout=900))
